@@ -253,6 +253,26 @@ pub fn seq_sweep(len: usize) -> Program {
     }
     b.op(Expr::assign(Target::Index(Expr::var("t"), n(0.0)), Expr::str("w")));
     b.op(Expr::assign(Target::Index(Expr::var("v"), Expr::range(n(0.0), n(1.0))), Expr::str("w")));
+    // a slice of a vector is a new vector, whatever part it covers (all of it included): changing
+    // either afterwards leaves the other as it was
+    for a in (-l - 1)..=(l + 1) {
+        for e in (-l - 1)..=(l + 1) {
+            b.counter += 1;
+            let ev = format!("e{}", b.counter);
+            b.out.push(Stmt::new(StmtKind::Try(
+                vec![
+                    Stmt::var("u", Some(Expr::VecLit((0..len).map(|k| n(k as f64)).collect()))),
+                    Stmt::var("c", Some(Expr::index(Expr::var("u"), Expr::range(n(a as f64), n(e as f64))))),
+                    Stmt::expr(Expr::invoke(Expr::var("c"), "push", vec![Expr::str("to the slice")])),
+                    Stmt::print(Expr::var("u")),
+                    Stmt::expr(Expr::invoke(Expr::var("u"), "push", vec![Expr::str("to the vector")])),
+                    Stmt::print(Expr::var("c")),
+                ],
+                Some((ev.clone(), vec![Stmt::print(Expr::callv("type", vec![Expr::var(&ev)]))])),
+                None,
+            )));
+        }
+    }
     b.out.push(Stmt::print(Expr::var("v")));
     b.out.push(Stmt::print(Expr::var("t")));
     Program { main: b.out, modules: vec![] }
